@@ -392,6 +392,21 @@ pub fn run(ctx: &Ctx) -> Report {
     }
   }
   // `create --link` prints the link of what it would write, also under --dry-run
+  // a tracker named more than once on the command line is still one tracker
+  {
+    let sb = Sandbox::new(&ctx.work, "c10e");
+    sb.write("foo", b"abc");
+    let out = Cmd::new(&ctx.imdl, &["torrent", "create", "--input", "foo", "--link", "--announce", "http://a.example/1", "--announce-tier", "http://a.example/1,http://b.example/2", "--announce-tier", "http://c.example/3,http://b.example/2", "--announce-tier", "http://a.example/1"]).cwd(&sb.root).run();
+    let case = json!({"cli": "torrent create --link", "trackers": "announce repeated in the tiers"});
+    report.case(Some(fnv_str(&case.to_string())));
+    report.hit("cli:create-link");
+    let so = out.stdout_s();
+    let uri = so.lines().find(|l| l.starts_with("magnet:")).unwrap_or("");
+    match std::panic::catch_unwind(|| imdl::verif::magnet_parse(uri)) {
+      Ok(Ok(p)) if out.ok() && p.trackers == vec!["http://a.example/1".to_string(), "http://b.example/2".into(), "http://c.example/3".into()] && uri.matches("tr=").count() == 3 => {}
+      other => report.fail("property", "create-link", case, format!("exit {:?}, link {uri:?}, own parser {:?}: expected one `tr` per distinct tracker, in first-appearance order", out.code, other.map(|r| r.map(|p| p.trackers)))),
+    }
+  }
   for dry in [false, true] {
     let sb = Sandbox::new(&ctx.work, "c10d");
     sb.write("foo", b"abc");
